@@ -28,6 +28,52 @@ WALL_LIMIT_S = 60.0
 _ADDR = re.compile(r"0x[0-9a-fA-F]{6,}")
 
 
+def _crc_tables():
+    poly = 0xEDB88320
+    fwd = []
+    for i in range(256):
+        c = i
+        for _ in range(8):
+            c = (c >> 1) ^ poly if c & 1 else c >> 1
+        fwd.append(c)
+    rev = {fwd[i] >> 24: i for i in range(256)}
+    return fwd, rev
+
+
+def forge_same_crc32(data: bytes) -> bytes:
+    """Different bytes, same length, same CRC-32 (what a checksum-based 'unchanged?'
+    test cannot tell apart): perturb a few bytes, then choose 4 patch bytes that restore
+    the checksum."""
+    import zlib
+
+    if len(data) < 16:
+        return data
+    fwd, rev = _crc_tables()
+    target = zlib.crc32(data) ^ 0xFFFFFFFF
+    buf = bytearray(data)
+    pos = len(buf) // 2
+    for k in range(pos - 6, pos - 1):
+        buf[k] = (buf[k] + 1 + k % 3) & 0xFF
+    # state needed right after the patch: run the CRC backwards over the suffix
+    state = target
+    for b in reversed(buf[pos + 4 :]):
+        i = rev[state >> 24]
+        state = (((state ^ fwd[i]) << 8) & 0xFFFFFFFF) | (i ^ b)
+    # state before the patch
+    start = zlib.crc32(bytes(buf[:pos])) ^ 0xFFFFFFFF
+    # go back four more steps with zero bytes, the difference to `start` is the patch
+    tmp = state
+    for _ in range(4):
+        i = rev[tmp >> 24]
+        tmp = (((tmp ^ fwd[i]) << 8) & 0xFFFFFFFF) | i
+    patch = tmp ^ start
+    buf[pos : pos + 4] = patch.to_bytes(4, "little")
+    out = bytes(buf)
+    if zlib.crc32(out) != zlib.crc32(data) or out == data or len(out) != len(data):
+        raise HarnessError("CRC-32 forging failed")
+    return out
+
+
 def sha(b) -> str:
     if isinstance(b, str):
         b = b.encode("utf-8", "surrogateescape")
@@ -307,6 +353,20 @@ class CompilerProcess:
                 data = data + b"\n// local edit\n"
             elif how == "bom":
                 data = b"\xef\xbb\xbf" + data
+            elif how == "same_crc32":
+                data = forge_same_crc32(data)
+            elif how == "same_head_tail":
+                if len(data) > 64:
+                    mid = len(data) // 2
+                    data = data[: mid - 8] + bytes((c + 1) & 0x7F or 0x20 for c in data[mid - 8 : mid + 8]) + data[mid + 8 :]
+            elif how == "swap_bytes":
+                # same length, same multiset of bytes (sum / xor style checksums agree)
+                b = bytearray(data)
+                for k in range(len(b) // 2, len(b) - 1):
+                    if b[k] != b[k + 1]:
+                        b[k], b[k + 1] = b[k + 1], b[k]
+                        break
+                data = bytes(b)
             elif how == "same_size":
                 data = (b"/* stale */ " * (len(data) // 12 + 1))[: len(data)]
             elif how == "strip_final_newline":
